@@ -730,8 +730,8 @@ func main() {
 	raceUnits = append(raceUnits, &unit{Mode: "race", Schema: maps, Ops: alphabet, Iters: iters, pass: "race", race: true},
 		&unit{Mode: "race", Schema: maps, Ops: []string{"Generate-separate", "Generate-combined"}, Iters: iters, pass: "race", race: true})
 
-	// ---- run: cheap units and race units first, then exploration
-	all := append(append(append([]*unit{}, cheap...), raceUnits...), units...)
+	// ---- run: exploration first (it alone has a deadline), then the map-order / repetition units and the race units
+	all := append(append(append([]*unit{}, units...), cheap...), raceUnits...)
 	results := make([]*result, len(all))
 	var firstErr error
 	var emu sync.Mutex
